@@ -37,4 +37,17 @@ theorem cexp_pow (ω : ℂ) (k : Nat) :
   congr 1
   ring
 
+/-- the DFT kernel as coded: `cexp(-1j * n * f)` -/
+noncomputable def ckern (f : ℝ) (n : ℕ) : ℂ := Complex.exp (-(Complex.I * n * f))
+
+/-- the transfer polynomial `Σ_k c_k e^{-jωk}` -/
+noncomputable def tf (c : List ℂ) (ω : ℝ) : ℂ :=
+  ∑ k ∈ range c.length, c.getD k 0 * Complex.exp (-(Complex.I * ω * k))
+
+theorem tf_eq (c : List ℂ) (ω : ℝ) : tf c ω = evalDirect c (Complex.exp (-(Complex.I * ω))) := by
+  simp only [tf, evalDirect_eq_sum, cexp_pow]
+
+theorem ckern_eq (f : ℝ) (n : ℕ) : ckern f n = Complex.exp (-(Complex.I * f)) ^ n := by
+  rw [cexp_pow]; unfold ckern; congr 1; ring
+
 end ALV.C12
